@@ -406,6 +406,10 @@ def _r4(ctx):
                     upper = ".upper()" in ast.unparse(x.left)
                 if isinstance(x, ast.For) and isinstance(x.iter, (ast.List, ast.Tuple)):
                     ops |= set(ast.literal_eval(x.iter))
+                # the same loop written out (or unrolled by the normaliser): <v>.replace("<token>", "")
+                if isinstance(x, ast.Call) and isinstance(x.func, ast.Attribute) and x.func.attr == "replace" and len(x.args) == 2 \
+                        and all(isinstance(a_, ast.Constant) and isinstance(a_.value, str) for a_ in x.args) and x.args[1].value == "":
+                    ops.add(x.args[0].value)
             ctx.check(want_none <= nones, "R4", f"KROME:{which}:no-bound spellings", (KROME, node.lineno),
                       "N / NONE / N/A / NO / empty keep the default (unbounded)", expected=str(sorted(want_none)), found=str(sorted(nones)))
             ctx.check(want_ops <= ops, "R4", f"KROME:{which}:operator tokens", (KROME, node.lineno),
